@@ -31,7 +31,7 @@ SMOOTH_REL = 1e-9
 
 
 def plan(tier, seed):
-    n = 5000 if tier == "quick" else 200000
+    n = 16000 if tier == "quick" else 1000000
     return [{"kind": "random", "start": p * (n // NSHARDS), "count": n // NSHARDS} for p in range(NSHARDS)]
 
 
